@@ -356,8 +356,12 @@ def check_pipeline(ctx, case, label):
         mpath.write_text(json.dumps(mu.lookup_dict(case['entries'])))
         out = d / 'out'
         out.mkdir()
+        tmp = d / 'tmp'
+        tmp.mkdir()
+        # tmp_dir given: with tmp_dir=None the mapper leaves its
+        # query_marker_*.h5 in the system temp directory
         cfg = pipeline.mapping_config(
-            q, stats, mpath, out, None, n_processors=2, chunk_size=3,
+            q, stats, mpath, out, tmp, n_processors=2, chunk_size=3,
             bootstrap_factor=case['bootstrap_factor'], bootstrap_iteration=5,
             rng_seed=case['rng_seed'], min_markers=case['m'],
             flatten=case['flatten'], drop_level=case['drop_level'], csv=False)
